@@ -140,7 +140,26 @@ VALUE_POOL = ["0", "1", "-1", "2", "4", "30", "2147483648", "9223372036854775808
               "503=1,404=2", "404=now", "500=00:00:01Z", "épée", "‮", "all", "foo", "playready-foo", "all-foo", "-", "clearkey-",
               "bogus", "ping,foo", "scte35", "ping", "1e9", "0x10", "٣", " 5", "5 ", "+5", "1970-01-01T00:00:00Z", "2100-01-01T00:00:00Z",
               "2024-02-30T00:00:00Z", "today", "now", "epoch", "00:00:10Z", "25:00:00Z", "10:00:00Z,10:00:04Z", "[]", "[(404, 3)]", "600",
-              "300", "-5", "1000000000", "direct", "xsd", "http://x/{cfgs}", "https://a/b?c=d&e=f"]
+              "300", "-5", "1000000000", "direct", "xsd", "http://x/{cfgs}", "https://a/b?c=d&e=f",
+              # (appended later, so that stored cases keep their indexes) numbers at the limit the option parsers accept,
+              # numbers that overflow a date but not a timedelta, counts that are cheap to ask for and expensive to serve,
+              # and braces as str.format sees them
+              "1000000000000", "999999999999", "-1000000000000", "-999999999999", "100000000", "99999999", "86399999999999",
+              "253402300800", "{", "}", "}{", "{kids[9]}", "{cfgs.x}", "{default_kid!z}", "{:>9999999}", "https://a/{x}/{0}"]
+# option bundles that only bite together (an option that is ignored unless another one switches its feature on)
+COMBOS = [
+    {"drm": "playready", "playready__la_url": None}, {"drm": "all", "playready__la_url": None},
+    {"drm": "marlin", "marlin__la_url": None}, {"drm": "clearkey", "clearkey__la_url": None},
+    {"drm": "playready", "playready__version": None}, {"drm": "all", "playready__piff": None},
+    {"events": "ping", "ping__inband": "0", "ping__count": None}, {"events": "scte35", "scte35__inband": "0", "scte35__count": None},
+    {"events": "ping", "ping__inband": "0", "ping__count": "3", "ping__interval": None},
+    {"events": "ping", "ping__inband": "0", "ping__count": "3", "ping__start": None},
+    {"events": "scte35", "scte35__inband": "0", "scte35__count": "3", "scte35__duration": None},
+    {"events": "ping", "ping__inband": "1", "ping__interval": None}, {"events": "scte35", "scte35__inband": "1", "scte35__duration": None},
+    {"events": "ping", "ping__timescale": None}, {"events": "scte35", "scte35__program_id": None},
+    {"time": "xsd", "drift": None}, {"drift": None}, {"patch": "1", "mup": None}, {"timeline": "1", "depth": None},
+    {"timeline": "1", "start": None}, {"mup": None, "depth": None},
+]
 INJECTION_OPTS = {"verr", "aerr", "terr", "merr"}
 
 
@@ -195,6 +214,12 @@ def check_surface(case) -> Outcome:
         q.append(f"{quote(name, safe='')}={quote(v, safe='')}")
         if name in INJECTION_OPTS:
             has_injection = True
+    if case.get("combo") is not None:
+        ci, vi = case["combo"]
+        for name, v in COMBOS[ci % len(COMBOS)].items():
+            v = VALUE_POOL[vi % len(VALUE_POOL)] if v is None else v
+            q.append(f"{quote(name, safe='')}={quote(v, safe='')}")
+        out.cls("combo")
     if case.get("dup") and q:
         q.append(q[0].split("=")[0] + "=dup")
     url = path + ("?" + "&".join(q) if q else "")
@@ -212,7 +237,8 @@ def check_surface(case) -> Outcome:
             kw["data"] = {n: VALUE_POOL[vi % len(VALUE_POOL)] for n, vi in case["opts"]}
     r, state = guarded_request(env, method, url, client=role_client(env, role), **kw)
     out.cls("rule:" + rule.endpoint, "role:" + role, "method:" + method)
-    optnames = "+".join(sorted({n for n, _ in case["opts"]}))[:60]
+    optnames = "+".join(sorted({n for n, _ in case["opts"]} |
+                               (set(COMBOS[case["combo"][0] % len(COMBOS)]) if case.get("combo") is not None else set())))[:60]
     if state == "unbounded":
         out.fail(f"unbounded/{rule.endpoint}/{optnames}", f"{method} {url[:400]} as {role}: still running after {WATCHDOG_S}s and again after {9 * WATCHDOG_S}s")
         return out
@@ -253,6 +279,7 @@ class HttpSurface(Engine):
             "role": st.sampled_from(["anonymous", "anonymous", "user"]),
             "range": st.sampled_from([None, None, None, "bytes=0-10", "bytes=-5", "bytes=5-", "bytes=9999999-", "items=0-1", "bytes=a-b"]),
             "clock": st.integers(0, 3), "dup": st.booleans(), "json": st.booleans(),
+            "combo": st.one_of(st.none(), st.none(), st.tuples(st.integers(0, len(COMBOS) - 1), st.integers(0, len(VALUE_POOL) - 1))),
         })
 
     def check(self, case):
